@@ -20,6 +20,7 @@ type SpecEnv struct {
 	bound map[string]Value
 	pkg   *PkgInfo
 	depth int
+	nameSt *State // state whose local-variable names are visible inside old(...)
 }
 
 type specError struct{ msg string }
@@ -162,6 +163,12 @@ func (e *SpecEnv) lookupIdent(name string) (Value, bool) {
 			}
 		}
 		return nr.V, true
+	}
+	// inside old(...): a local variable that did not exist at entry denotes its current value
+	if e.nameSt != nil {
+		if nr, ok := e.nameSt.Names[name]; ok && !nr.IsAddr {
+			return nr.V, true
+		}
 	}
 	// package scope
 	if e.pkg != nil {
@@ -614,6 +621,9 @@ body:
 
 func (e *SpecEnv) withState(st *State) *SpecEnv {
 	n := *e
+	if n.nameSt == nil {
+		n.nameSt = e.st
+	}
 	n.st = st
 	return &n
 }
@@ -773,6 +783,15 @@ func (e *SpecEnv) evalCall(n *SCall) Value {
 			return nr.V
 		}
 		return e.eval(n.Args[0])
+	case "incells":
+		p := e.scalar(n.Args[0])
+		sl, ok := e.eval(n.Args[1]).(SliceV)
+		if !ok {
+			e.fail("incells(p, s): s must be a slice")
+		}
+		lo, hi := sl.Off, Arith("+", sl.Off, sl.Len)
+		it := modItem{rngArr: &sl.Arr, rngLo: &lo, rngHi: &hi}
+		return Sc{Term{it.inRange(p.T.S), SBool}, tb}
 	case "disjoint", "samearray":
 		a, ok1 := e.eval(n.Args[0]).(SliceV)
 		b, ok2 := e.eval(n.Args[1]).(SliceV)
